@@ -2476,7 +2476,7 @@ def inline_generators(tree, modname, table=None):
       for n in _own_walk(g):
         if isinstance(n, (ast.Yield, ast.YieldFrom)):
           ok = ok and any(isinstance(p, ast.Expr) and p.value is n for p in _own_walk(g))
-        if isinstance(n, ast.Return) and (n.value is not None or n is not g.body[-1]):
+        if isinstance(n, ast.Return) and n.value is not None:
           ok = False
         if isinstance(n, ast.Call) and isinstance(n.func, ast.Name) and n.func.id == name:
           ok = False
@@ -2551,8 +2551,21 @@ def inline_generators(tree, modname, table=None):
               gbody = copy.deepcopy(g.body)
               if gbody and isinstance(gbody[0], ast.Expr) and isinstance(gbody[0].value, ast.Constant) and isinstance(gbody[0].value.value, str):
                 gbody = gbody[1:]
-              if gbody and isinstance(gbody[-1], ast.Return):
-                gbody = gbody[:-1]
+              # bare `return`s: early exits become else branches, then the ones in tail position just end the body
+              gbody = _elseify(gbody)
+
+              def strip_tail_returns(stmts):
+                if stmts and isinstance(stmts[-1], ast.Return):
+                  stmts[-1:] = [] if len(stmts) > 1 else [ast.Pass()]
+                elif stmts and isinstance(stmts[-1], ast.If):
+                  strip_tail_returns(stmts[-1].body)
+                  if stmts[-1].orelse:
+                    strip_tail_returns(stmts[-1].orelse)
+                return stmts
+              gbody = strip_tail_returns(gbody) or [ast.Pass()]
+              if _count_returns(gbody):
+                i += 1
+                continue        # a `return` somewhere else (inside a loop): not expressible in place
               sub = _Subst(mapping, renames)
               gbody = [sub.visit(x) for x in gbody]
 
